@@ -135,6 +135,10 @@ def run_case(c, AM, uid):
                 own[a["n"]] = ANN[a["ann"]]
         K[cn].__annotations__ = own
         K[cn].__init__.__annotations__ = dict({p["n"]: ANN[p["ann"]] for p in spec["ctor"]}, **{"return": None})
+    if uid % 4 == 1:
+        # typing.Annotated[T, ...] is T plus metadata
+        for cn in order:
+            K[cn].__annotations__ = {n: typing.Annotated[t, "units: m"] for n, t in K[cn].__annotations__.items()}
     vals = {n: make_value(k) for n, k in c["robot"].items() if k != "missing"}
     rns = {"__annotations__": {cn: K[cn] for cn in order}}
     if c["clslvl"]:
